@@ -24,7 +24,9 @@ RULE = ("pop-on programs of 1-4 captions from the C05 model with emphasis on lay
         "File layout variants: a line spread over 2-4 frame-contiguous lines at any word, 1-3 "
         "blanks between code words, blanks for the tab after the timecode, blanks / a tab after "
         "the last word; the notation (';' / ':') may change from caption to caption; the stream may end "
-        "while a further caption is being loaded (never displayed). ")
+        "while a further caption is being loaded (never displayed); a caption may be taken off "
+        "the screen by a second EOC sent after null padding; a one-frame caption may be followed "
+        "at once by a short second caption (the five-frame rule then keeps it). ")
 ASSUMPTIONS = [
     "tolerance 0.01 us against the exact clock (the reader computes in floats)",
     "a gap of <= 5 frames between an erase and the next caption is closed, >= 6 frames is "
@@ -54,13 +56,31 @@ def program_strategy(tier):
                          "eoc_gap": draw(st.integers(0, 10)),
                          "hold": draw(st.one_of(st.integers(0, 3), st.integers(40, 150))),
                          "clear": draw(st.booleans()),
+                         "clear_by": draw(st.sampled_from(["edm", "edm", "edm", "eoc"])),
+                         "pad": draw(st.integers(1, 4)),
                          "dbl": draw(st.lists(st.booleans(), min_size=40, max_size=40))})
+        for k in range(n):
+            # a second EOC takes a caption off the screen only if the other memory is empty at
+            # that point: the caption displayed before it was erased (or there was none)
+            if caps[k]["clear_by"] == "eoc" and not (k == 0 or caps[k - 1]["clear"] or caps[k]["edm"] != "none"):
+                caps[k]["clear_by"] = "edm"
+        if n >= 2 and draw(st.integers(0, 5)) == 0:
+            # a caption erased one or two frames after it appeared, followed at once by a short
+            # second caption (no ENM needed: non-displayed memory is still empty): after the
+            # five-frame rule the first one is displayed long enough
+            caps[0].update(hold=draw(st.integers(1, 2)), clear=True, clear_by="edm", edm="none", eoc_line=False)
+            caps[1].update(gap=draw(st.integers(0, 1)), enm=False, edm="none", eoc_line=False)
+            caps[1]["rows"] = caps[1]["rows"][:1]
+            caps[1]["rows"][0].update(items=[["c", "Hi"]], to=0)
+            quick_follow = True
         # the two timecode notations may alternate between captions (the repository's own
         # fixtures mix them): per caption None = the program's notation, True = ';', False = ':'
+        quick_follow = locals().get("quick_follow", False)
         notation = [None] * n
         if draw(st.integers(0, 3)) == 0:
             notation = [draw(st.sampled_from([None, True, False])) for _ in range(n)]
-        return {"drop": draw(st.booleans()), "double": draw(st.sampled_from(["none", "all", "random"])),
+        return {"drop": draw(st.booleans()),
+                "double": "none" if quick_follow else draw(st.sampled_from(["none", "all", "random"])),
                 "captions": caps, "offset": draw(st.sampled_from(OFFSETS)),
                 "reuse": draw(SP.reuse_strategy()), "cuts": draw(SP.cuts_strategy()),
                 "spacing": draw(SP.spacing_strategy()), "notation": notation,
